@@ -697,7 +697,8 @@ class State:
         self.memory.set_slice(start=loc, stop=stop, value=data)
 
     def ret(self, subst: dict = None) -> ByteVec:
-        loc: int = self.mloc(subst)
+        # mslice() checks the size of a non-empty read; an empty one does not touch memory
+        loc: int = self.mloc(subst, check_size=False)
         size: int = int_of(self.popi(), "symbolic return data size", subst)
 
         return self.mslice(loc, size)
@@ -3404,7 +3405,8 @@ class SEVM:
                         raise WriteInStaticContext(ex.context_str())
 
                     num_topics: int = opcode - OP_LOG0
-                    loc: int = ex.mloc()
+                    # mslice() checks the size of a non-empty read
+                    loc: int = ex.mloc(check_size=False)
                     size: int = ex.int_of(state.pop(), "symbolic LOG data size")
                     topics = list(state.pop() for _ in range(num_topics))
                     data = state.mslice(loc, size)
